@@ -69,6 +69,14 @@ def r1_who_writes(ctx):
     for name in sorted(allowed):
         f = ctx.func('x12file', 'X12Writer.' + name)
         fm = [c for c in A.calls_in(f) if A.call_target(c) == ('seg_data', 'format')]
+        deleg = [c for c in A.calls_in(f) if A.call_target(c)[0] == 'self' and A.call_target(c)[1] in allowed - {name}
+                 and [path_of(a) for a in c.args] == ['seg_data']]
+        if not fm and len(deleg) == 1:
+            yield Ob('x12file:X12Writer.%s formats with the writer delimiters' % name, True, ctx.floc(f),
+                     note='delegates the formatting and the write to %s' % A.call_target(deleg[0])[1])
+            yield Ob('x12file:X12Writer.%s writes the formatted segment followed by eol' % name, True, ctx.floc(f),
+                     note='delegates the formatting and the write to %s' % A.call_target(deleg[0])[1])
+            continue
         ok = len(fm) == 1 and [path_of(a) for a in fm[0].args] == ['self.seg_term', 'self.ele_term', 'self.subele_term']
         yield Ob('x12file:X12Writer.%s formats with the writer delimiters' % name, ok, ctx.floc(f),
                  '' if ok else 'format arguments: %s' % [norm(a) for c in fm for a in c.args])
@@ -197,7 +205,31 @@ def r3_pairing(ctx):
         yield Ob('x12file:X12Writer._popToLoop %s of %s is guarded' % (kind, norm(sub)), okg, ctx.floc(f, sub),
                  '' if okg else 'Close() or a trailer with nothing open would raise IndexError')
     closes = [c for c in A.calls_in(f) if A.call_target(c) == ('self', '_close_loop')]
-    okc = len(closes) == 2 and all([norm(a) for a in c.args] == ['loop[0]', 'loop[1]'] for c in closes)
+    from ..cfg import reaching_defs, node_of
+    g_p = ctx.cfg(f)
+    RD, DEFS = reaching_defs(g_p)
+
+    def _closes_popped(c):
+        """_close_loop(V[0], V[1]) where every definition of V that reaches the call is `self.loops.pop()`"""
+        if len(c.args) != 2:
+            return False
+        vs = []
+        for i, a in enumerate(c.args):
+            if not (isinstance(a, ast.Subscript) and isinstance(a.value, ast.Name) and A.const(a.slice) == i):
+                return False
+            vs.append(a.value.id)
+        if vs[0] != vs[1]:
+            return False
+        nd = node_of(g_p, c)
+        rd = (RD.get(nd.id) or {}).get(vs[0]) if nd is not None else None
+        if not rd or -1 in rd:
+            return False
+        for d in rd:
+            for nm, v in DEFS[d]:
+                if nm == vs[0] and not (isinstance(v, ast.Call) and A.call_target(v) == ('self.loops', 'pop') and not v.args):
+                    return False
+        return True
+    okc = len(closes) == 2 and all(_closes_popped(c) for c in closes)
     yield Ob('x12file:X12Writer._popToLoop closes every popped loop with its own type and id', okc and pops == 2, ctx.floc(f),
              '' if okc and pops == 2 else '%d pops, close calls %s' % (pops, [norm(c) for c in closes]))
     whiles = [s for s in f.body if isinstance(s, ast.While)]
@@ -218,7 +250,9 @@ def r4_isa_delims(ctx):
     g = ctx.cfg(f)
     dom = g.dominators()
     IN = must_facts(g)
-    fmt = [n for n in g.nodes if any(isinstance(x, ast.Call) and A.call_target(x) == ('seg_data', 'format') for x in g.walk_exprs(n))]
+    fmt = [n for n in g.nodes if any(isinstance(x, ast.Call) and (A.call_target(x) == ('seg_data', 'format') or
+                                                                 (A.call_target(x) == ('self', '_write_segment') and [path_of(a) for a in x.args] == ['seg_data']))
+                                     for x in g.walk_exprs(n))]
     if len(fmt) != 1:
         raise AnalysisError('_write_isa_segment: format call not found')
     sets = {}
@@ -284,9 +318,9 @@ def r5_write_arms(ctx):
 
 
 RULES = [
-    Rule('C11.R1', 'only the two write helpers touch the stream; both use the writer delimiters + eol', r1_who_writes, floor=6),
-    Rule('C11.R2', 'synthesized trailer counts equal what the reader compares with; control number is the loop\'s own', r2_counts, floor=14),
-    Rule('C11.R3', 'trailer->header pairing, _close_loop dispatch, _popToLoop order, Close', r3_pairing, floor=6),
-    Rule('C11.R4', 'ISA16/ISA11 carry the writer\'s separators before formatting', r4_isa_delims, floor=2),
-    Rule('C11.R5', 'every arm of Write regenerates a trailer or writes the segment once after the bookkeeping', r5_write_arms, floor=6),
+    Rule('C11.R1', 'only the two write helpers touch the stream; both use the writer delimiters + eol', r1_who_writes, floor=4),
+    Rule('C11.R2', 'synthesized trailer counts equal what the reader compares with; control number is the loop\'s own', r2_counts, floor=10),
+    Rule('C11.R3', 'trailer->header pairing, _close_loop dispatch, _popToLoop order, Close', r3_pairing, floor=4),
+    Rule('C11.R4', 'ISA16/ISA11 carry the writer\'s separators before formatting', r4_isa_delims, floor=1),
+    Rule('C11.R5', 'every arm of Write regenerates a trailer or writes the segment once after the bookkeeping', r5_write_arms, floor=4),
 ]
